@@ -117,7 +117,7 @@ Pos(c, x) == QPos(SurrArg(c, x), StepE(c))
 YQ(c, y) ==
   LET n == Norm(y)  a == Norm(c.al)  sh == n[2] - a[2] - StepE(c) + 2 IN
   IF n[1] = 0 THEN <<TRUE, 0>>
-  ELSE IF sh >= 0 THEN IF sh > 6 THEN <<TRUE, Sgn(n[1]) * 4 * BigPos>>
+  ELSE IF sh >= 0 THEN IF BitLen(Abs(n[1])) + sh > 27 THEN <<TRUE, Sgn(n[1]) * 4 * BigPos>>      \* beyond 2^27 quarter steps
                        ELSE LET num == n[1] * Pow2(sh) IN <<(num % a[1]) = 0, num \div a[1]>>
   ELSE <<FALSE, 0>>
 =============================================================================
